@@ -110,3 +110,45 @@ Fixpoint expand (s : state) (evs : list (event * option bool)) : list event :=
       | None => e :: expand s1 r
       end
   end.
+
+(* ------------------------------------------------------------------------------------------------
+   case line = per event: <mode 0 pending | 1 succeeds inside the call | 2 fails inside the call> then the event in the
+   encoding of Model/BrokerClient.v;  trace: as Model/BrokerClient.v, one segment per event *)
+Fixpoint parse_sevents (fuel : nat) (l : list Z) : option (list (event * option bool)) :=
+  match fuel with
+  | O => None
+  | S f =>
+      match l with
+      | [] => Some []
+      | mc :: l1 =>
+          let m := if mc =? 1 then Some true else if mc =? 2 then Some false else None in
+          let k := fun ev r => match parse_sevents f r with Some es => Some ((ev, m) :: es) | None => None end in
+          match l1 with
+          | 1 :: rid :: ex :: r => k (EMake rid (negb (ex =? 0))) r
+          | 2 :: h :: r => if h <? 0 then None else k (ECancel (Z.to_nat h)) r
+          | 3 :: r => k EConnOk r
+          | 4 :: r => k EConnFail r
+          | 5 :: r => k ELost r
+          | 6 :: r => match take_lp r with Some (c, r2) => k (EData c) r2 | None => None end
+          | 7 :: r => match take_lp r with Some (c, r2) => k (EFrame c) r2 | None => None end
+          | 8 :: r => k EFire r
+          | 9 :: r => k EClose r
+          | 10 :: r => k EDisconnect r
+          | 11 :: sm :: a :: r => k (EUpdate (negb (sm =? 0)) a) r
+          | _ => None
+          end
+      end
+  end.
+
+Fixpoint srun_enc (s : state) (evs : list (event * option bool)) : list Z :=
+  match evs with
+  | [] => []
+  | (e, m) :: r => let (s1, o1) := sstep s e m in
+                   0 :: (if s_proto s1 then 1 else 0) :: flat_map enc_out (canon_outs o1) ++ srun_enc s1 r
+  end.
+
+Definition run_case (c : list Z) : list Z :=
+  match parse_sevents (S (length c)) c with
+  | Some es => srun_enc init es
+  | None => [-99]
+  end.
